@@ -875,6 +875,28 @@ impl Metric {
 }
 
 
+//------------ EscapeLabelValue ----------------------------------------------
+
+/// Writes a label value with the escapes the text format requires.
+///
+/// Backslash, double quote and line feed need to be escaped.
+struct EscapeLabelValue<'a>(&'a mut String);
+
+impl fmt::Write for EscapeLabelValue<'_> {
+    fn write_str(&mut self, s: &str) -> fmt::Result {
+        for ch in s.chars() {
+            match ch {
+                '\\' => self.0.push_str("\\\\"),
+                '"' => self.0.push_str("\\\""),
+                '\n' => self.0.push_str("\\n"),
+                _ => self.0.push(ch)
+            }
+        }
+        Ok(())
+    }
+}
+
+
 //------------ LabelValue ----------------------------------------------------
 
 struct LabelValue<'a> {
@@ -898,8 +920,12 @@ impl<'a> LabelValue<'a> {
             self.target.buf.push_str(", ");
         }
         write!(
-            &mut self.target.buf, "{name}=\"{value}\""
+            &mut self.target.buf, "{name}=\""
         ).expect("writing to string");
+        write!(
+            &mut EscapeLabelValue(&mut self.target.buf), "{value}"
+        ).expect("writing to string");
+        self.target.buf.push('"');
         self
     }
 
